@@ -3,6 +3,7 @@
 package otr3
 
 import (
+	"strings"
 	"bytes"
 	"encoding/binary"
 	"fmt"
@@ -23,6 +24,7 @@ type c09Key struct {
 type monC09 struct {
 	Budget  [2]int
 	Refresh int
+	SMP     int // SMP runs A may still start
 	Forge   int // remaining injections of a data message with current key ids and a wrong MAC
 	Keys    [2][]c09Key
 	Epoch   [2]int
@@ -114,16 +116,22 @@ func c09StillAccepts(p *verifPrincipal, k c09Key) bool {
 }
 
 func verifC09Sys(id string, seed int64) *verifSys {
-	var v, sa, sb, refresh, forge int
-	if _, err := fmt.Sscanf(id, "v%d/S%d-%d/R%d/F%d", &v, &sa, &sb, &refresh, &forge); err != nil {
-		if _, err := fmt.Sscanf(id, "v%d/S%d-%d/R%d", &v, &sa, &sb, &refresh); err != nil {
+	var v, sa, sb, refresh, forge, smpRuns int
+	base := id
+	if strings.HasSuffix(base, "/M1") {
+		// one SMP run started by A at any moment, B gives the same secret when asked: data messages that carry TLVs and
+		// are answered from inside Receive
+		base, smpRuns = strings.TrimSuffix(base, "/M1"), 1
+	}
+	if _, err := fmt.Sscanf(base, "v%d/S%d-%d/R%d/F%d", &v, &sa, &sb, &refresh, &forge); err != nil {
+		if _, err := fmt.Sscanf(base, "v%d/S%d-%d/R%d", &v, &sa, &sb, &refresh); err != nil {
 			return nil
 		}
 	}
 	sys := &verifSys{Prop: "C09", ID: id, Seed: seed}
 	sys.Init = func() *verifWorld {
 		w := verifEstablished(seed, v, 0)
-		w.Mon = &monC09{Budget: [2]int{sa, sb}, Refresh: refresh, Forge: forge}
+		w.Mon = &monC09{Budget: [2]int{sa, sb}, Refresh: refresh, Forge: forge, SMP: smpRuns}
 		c09Learn(w, 0)
 		c09Learn(w, 1)
 		w.P[0].Rec.take()
@@ -142,6 +150,9 @@ func verifC09Sys(id string, seed int64) *verifSys {
 			if m.Budget[i] > 0 {
 				evs = append(evs, verifEv{K: "send", I: i})
 			}
+		}
+		if m.SMP > 0 && w.P[0].C.IsEncrypted() {
+			evs = append(evs, verifEv{K: "smp", I: 0})
 		}
 		if m.Forge > 0 {
 			// every key pair the receiver would currently consider: (current|previous) x (current|previous)
@@ -201,6 +212,9 @@ func verifC09Sys(id string, seed int64) *verifSys {
 			k := m.Budget[e.I]
 			m.Budget[e.I]--
 			r = p.Send([]byte(fmt.Sprintf("m%d-%d", e.I, k)))
+		case "smp":
+			m.SMP--
+			r = p.StartSMP("", []byte("s"))
 		case "forge":
 			// a rejected message (current key ids of the receiver's previous/current pair, wrong MAC) owes and forfeits nothing
 			m.Forge--
@@ -236,6 +250,13 @@ func verifC09Sys(id string, seed int64) *verifSys {
 			_, dm, _, isData := verifParseData(msg)
 			wasKeys := m.Epoch[e.I]
 			r = p.Receive(msg)
+			if verifHasEvent(r.Events, 'P', int(SMPEventAskForSecret)) {
+				a := p.AnswerSMP([]byte("s"))
+				r.Out = append(r.Out, a.Out...)
+				if a.Panic != "" {
+					r.Panic = a.Panic
+				}
+			}
 			if verifHasEvent(r.Events, 'S', int(StillSecure)) || verifHasEvent(r.Events, 'S', int(GoneSecure)) {
 				m.Epoch[e.I]++
 			}
@@ -317,11 +338,11 @@ func init() {
 		Level: "model_checking",
 		Build: verifC09Sys,
 		Run: func(r *verifReport) {
-			r.Rule = "all interleavings of Send/deliver of two parties over FIFO queues (per-side budgets, incl. one-directional streams) an optional refresh while encrypted or End + new exchange (R2), and injected data messages with current key ids and a wrong MAC; the monitor recomputes every receiving MAC key each party can form from the DH keys it holds; safety on EVERY emitted data message: each disclosed value is a receiving MAC key of the discloser, and on a clone of the discloser taken right after the send a forged message for that key pair with a fresh counter and a correct MAC under the disclosed key is rejected; liveness at every maximal path after one flush message each way: every key that authenticated an accepted message and whose pair is retired (same behavioural probe) has been disclosed"
+			r.Rule = "all interleavings of Send/deliver of two parties over FIFO queues (per-side budgets, incl. one-directional streams) an optional refresh while encrypted or End + new exchange (R2), an optional SMP run started at any moment (M1: data messages carrying TLVs, answered from inside Receive), and injected data messages with current key ids and a wrong MAC; the monitor recomputes every receiving MAC key each party can form from the DH keys it holds; safety on EVERY emitted data message: each disclosed value is a receiving MAC key of the discloser, and on a clone of the discloser taken right after the send a forged message for that key pair with a fresh counter and a correct MAC under the disclosed key is rejected; liveness at every maximal path after one flush message each way: every key that authenticated an accepted message and whose pair is retired (same behavioural probe) has been disclosed"
 			r.Assumptions = []string{"MAC keys are recomputed with the package's own key-derivation function from the DH keys found in the conversations (not an independent implementation)", "End() is not part of this exploration: the keys of an ended session are dropped, not retired by rotation"}
-			ids := []string{"v3/S3-3/R0", "v2/S2-2/R0", "v3/S5-0/R0", "v3/S1-4/R0", "v3/S2-2/R1", "v3/S2-2/R0/F1", "v2/S2-1/R0/F1", "v3/S2-2/R2", "v2/S2-1/R2"}
+			ids := []string{"v3/S3-3/R0", "v2/S2-2/R0", "v3/S5-0/R0", "v3/S1-4/R0", "v3/S2-2/R1", "v3/S2-2/R0/F1", "v2/S2-1/R0/F1", "v3/S2-2/R2", "v2/S2-1/R2", "v3/S1-1/R0/M1", "v2/S1-1/R0/M1"}
 			if r.Tier == "thorough" {
-				ids = []string{"v3/S4-4/R0", "v2/S4-4/R0", "v3/S6-0/R0", "v2/S0-6/R0", "v3/S2-5/R0", "v3/S3-3/R1", "v2/S2-2/R1", "v3/S3-3/R0/F1", "v2/S2-2/R0/F2", "v3/S2-2/R1/F1", "v3/S3-3/R2", "v2/S2-2/R2"}
+				ids = []string{"v3/S4-4/R0", "v2/S4-4/R0", "v3/S6-0/R0", "v2/S0-6/R0", "v3/S2-5/R0", "v3/S3-3/R1", "v2/S2-2/R1", "v3/S3-3/R0/F1", "v2/S2-2/R0/F2", "v3/S2-2/R1/F1", "v3/S3-3/R2", "v2/S2-2/R2", "v3/S2-2/R0/M1", "v2/S2-2/R0/M1", "v3/S1-1/R1/M1", "v3/S1-2/R0/F1/M1"}
 			}
 			for _, id := range ids {
 				r.explore(verifC09Sys(id, r.Seed))
